@@ -12,6 +12,7 @@ mod estimate;
 mod frames;
 mod latest;
 mod msghdr;
+mod radial;
 mod rda;
 mod search;
 mod sim;
@@ -26,6 +27,7 @@ fn main() {
     let args = Args::parse();
     match args.module.as_str() {
         "sweep" => sweep::run(&args),
+        "radial" => radial::run(&args),
         "container" => container::run(&args),
         "totalc" => container::run_total(&args),
         "summary" => summary::run(&args),
